@@ -44,8 +44,8 @@ func init() {
 		},
 		Batches:      func(tier string) int { return map[string]int{"quick": 8, "thorough": 16}[tier] },
 		Run:          run,
-		ChildTimeout: func(tier string) time.Duration { return 30 * time.Minute },
-		MinEvals:     func(tier string) int { return map[string]int{"quick": 100000, "thorough": 2000000}[tier] },
+		ChildTimeout: func(tier string) time.Duration { return 90 * time.Minute }, // generous: ~8 min per child on an idle machine
+		MinEvals:     func(tier string) int { return map[string]int{"quick": 100000, "thorough": 5000000}[tier] },
 	})
 }
 
@@ -139,11 +139,6 @@ func firstLine(s string) string {
 func refOffences(src []byte, offs []validate.Offence) []string {
 	var out []string
 	for _, o := range offs {
-		if os.Getenv("VERIF_C02_DEBUG") != "" {
-			for _, n := range o.Nodes {
-				fmt.Fprintf(os.Stderr, "DBG node %T %p %+v\n", n, n, n.Pos())
-			}
-		}
 		s := o.Msg
 		if o.Optional {
 			s = "(optional) " + s
@@ -403,7 +398,7 @@ func run(c *core.Child) {
 // typed: workloads (a) valid typed documents, (b) one mutation, (c) two mutations.
 func (k *ck) typed() {
 	c := k.c
-	nSchemas := c.Scale(6, 60)
+	nSchemas := c.Scale(6, 30)
 	nDocs := c.Scale(36, 110)
 	nops := len(invaliddoc.Operators)
 	for si := 0; si < nSchemas; si++ {
@@ -618,8 +613,8 @@ func (k *ck) family() {
 		sample(3, 350)
 	} else {
 		exhaustive(2)
-		sample(3, 12000)
-		sample(4, 6000)
+		sample(3, 6000)
+		sample(4, 3000)
 	}
 }
 
